@@ -45,10 +45,14 @@ def tx_from(j):
 
 
 def rows_to_json(rows):
+    if rows is None:
+        return None
     return {k: [{a: ({'$d': b.isoformat()} if isinstance(b, date) else b) for a, b in r.items()} for r in v] for k, v in rows.items()}
 
 
 def rows_from_json(rows):
+    if rows is None:
+        return None
     return {k: [{a: (date.fromisoformat(b['$d']) if isinstance(b, dict) and '$d' in b else b) for a, b in r.items()} for r in v]
             for k, v in rows.items()}
 
@@ -76,7 +80,7 @@ def do_classify(handle, txn, rows):
     try:
         m, c, s, info = mu.normalize_merchant(txn.get('description', ''), rules, amount=txn.get('amount'), txn_date=d,
                                               field=copy.deepcopy(f) if f else None, data_source=txn.get('source'), transforms=transforms,
-                                              location=txn.get('location'), data_sources=O.copy_rows(rows))
+                                              location=txn.get('location'), data_sources=O.copy_rows(rows) if rows is not None else None)
         return norm_result(m, c, s, info)
     except Exception as e:
         return {'exception': type(e).__name__ + ': ' + str(e)[:120]}
@@ -94,7 +98,8 @@ def do_parse_csv(handle, txn, rows, tmpdir):
                     repr(float(txn['amount']))])
     spec = parse_format_string('{date:%Y-%m-%d},{description},{memo},{code},{amount}')
     try:
-        out = parse_generic_csv(p, spec, rules, source_name=txn.get('source') or 'CSV', transforms=transforms, data_sources=O.copy_rows(rows))
+        out = parse_generic_csv(p, spec, rules, source_name=txn.get('source') or 'CSV', transforms=transforms,
+                                data_sources=O.copy_rows(rows) if rows is not None else None)
     except Exception as e:
         return {'exception': type(e).__name__ + ': ' + str(e)[:120]}
     finally:
@@ -119,7 +124,7 @@ def do_eval(expr, txn, variables, rows):
 def do_engine(text, mode, txn, rows):
     from tally.merchant_engine import parse_merchants
     try:
-        res = parse_merchants(text, match_mode=mode).match(copy.deepcopy(txn), data_sources=O.copy_rows(rows))
+        res = parse_merchants(text, match_mode=mode).match(copy.deepcopy(txn), data_sources=O.copy_rows(rows) if rows is not None else None)
         return {'m': res.merchant, 'c': res.category, 's': res.subcategory, 'tags': sorted(res.tags),
                 'fields': {k: repr(lang.norm(v)) for k, v in res.extra_fields.items()}}
     except Exception as e:
@@ -313,6 +318,10 @@ def make_pool(rnd, tmp, k):
     if rnd.random() < .6:
         e = rnd.choice(DATE_BAIT)
         a.rules.insert(rnd.randint(0, len(a.rules)), R.Rule('DateBait', rnd.choice(['contains("NETFLIX") and ', 'contains("UBER") and ', '']) + e, 'DateBaitCat', 'x'))
+    if rnd.random() < .6:
+        # a top-level variable that can be evaluated for some transactions only (those that have custom fields)
+        a.variables = list(a.variables) + [('has_memo', 'field.memo != "zz-never"')]
+        a.rules.insert(rnd.randint(0, len(a.rules)), R.Rule('VarBait', 'has_memo and amount > -1e9', 'VarBaitCat', 'x', tags=['varbait']))
     b = near_duplicate(a, rnd)
     for r in b.rules:
         if r.name.startswith('Bait'):
@@ -328,7 +337,9 @@ def make_pool(rnd, tmp, k):
         files[name] = {'path': O.write(os.path.join(d, name + '.csv'), R.render_csv(R.gen_csv_rules(rnd), rnd)), 'kind': 'csv'}
     files['X'] = {'path': O.write(os.path.join(d, 'X.rules'), R.render(c) + '\n[Broken]\ncategory: NoMatchLine\n'), 'kind': 'corrupt'}
     files['N'] = {'path': None, 'kind': 'none'}
-    txns = world.pool(rnd, 24) + [world.txn(rnd, desc=x) for x in DESCS_EXTRA]
+    txns = world.pool(rnd, 24, with_fields=False) + [world.txn(rnd, desc=x) for x in DESCS_EXTRA]
+    for t in rnd.sample(txns, 4):
+        t['field'] = None                  # a source without custom columns: field.* cannot be evaluated for these
     for t in txns:
         if rnd.random() < .3 and t.get('date'):
             t['date'] = datetime(t['date'].year, t['date'].month, t['date'].day, 13, 45)
@@ -370,14 +381,17 @@ def run_sequence(rec, pool, pr, rnd, nops, tmp, fresh_rate):
         if op in ('classify', 'parse'):
             if op == 'parse' and (not txn.get('date') or not txn['description'].strip() or txn['amount'] == 0):
                 op = 'classify'
-            rules_snap, rows_live = typed_snapshot(handle[0]), copy.deepcopy(rows)
+            rows_here = rows if rnd.random() < .75 else None          # a caller without supplemental data (the default of normalize_merchant)
+            rules_snap, rows_live = typed_snapshot(handle[0]), copy.deepcopy(rows_here)
             rows_snap = typed_snapshot(rows_live)
             cached_before = len(ep._expression_cache)
             got = do_classify(handle, txn, rows_live) if op == 'classify' else do_parse_csv(handle, txn, rows_live, tmp)
             rec.count('immutability_snapshots')
             if typed_snapshot(handle[0]) != rules_snap or typed_snapshot(rows_live) != rows_snap:
                 rec.violation('classify-mutates-rules-or-rows', f'{op} after load {cur}: rule tuples or supplemental rows changed', dict(case_base, txn=O.jtxn(txn)))
-            q = {'op': op, 'path': f['path'], 'mode': mode, 'txn': O.jtxn(txn), 'rows': rows_to_json(rows)}
+            if rows_here is None:
+                rec.count('classify_without_supplemental_data')
+            q = {'op': op, 'path': f['path'], 'mode': mode, 'txn': O.jtxn(txn), 'rows': rows_to_json(rows_here)}
             want = pr.ask(q)
             rec.count('pristine_queries_asked')
             rec.count('classify_vs_pristine')
@@ -451,6 +465,18 @@ def run_sequence(rec, pool, pr, rnd, nops, tmp, fresh_rate):
                                       dict(case_base, txn=O.jtxn(txn)))
                 except Exception:
                     pass
+            # the same engine object asked WITHOUT supplemental data after it was asked with it
+            try:
+                r6 = eng.match(copy.deepcopy(txn), data_sources=None)
+                got6 = {'m': r6.merchant, 'c': r6.category, 's': r6.subcategory, 'tags': sorted(r6.tags),
+                        'fields': {k: repr(lang.norm(v)) for k, v in r6.extra_fields.items()}}
+            except Exception as e:
+                got6 = {'exception': type(e).__name__ + ': ' + str(e)[:100]}
+            want6 = pr.ask({'op': 'engine', 'text': f['text'], 'mode': mode, 'txn': O.jtxn(txn), 'rows': None})
+            rec.count('engine_without_data_after_with_data')
+            if got6 != want6 and 'oracle_error' not in want6:
+                rec.violation('engine-remembers-supplemental-data', f'match(data_sources=None) after match(data_sources=rows): {got6} vs pristine {want6}',
+                              dict(case_base, txn=O.jtxn(txn)))
             # the same engine object asked twice must answer the same (no per-engine memory of earlier items)
             try:
                 res2 = eng.match(copy.deepcopy(rnd.choice(pool['txns'])), data_sources=copy.deepcopy(rows))
